@@ -250,4 +250,37 @@ def outcome (s : St) : Outcome :=
 
 def pickFirst : List Nat → Option Nat := List.head?
 
+/-! ### consecutive runs on one pool
+
+`Pool.run` re-initialises its bookkeeping at the start of every call (`pool.py`, the assignments in front of
+the nested functions); which fields it re-initialises is **regenerated from /repo** into `Gen/PoolReset.lean`.
+The workers (alive or not, what is still buffered in their pipes, which ones the pool has closed) carry over. -/
+
+structure ResetCfg where
+  depleted : Bool      -- `self._depleted = False`
+  pending : Bool       -- `self._pending = 0`
+  ppw : Bool           -- `self._pending_per_worker = { worker.id: [] for ... }`
+  retries : Bool       -- `self._retries = []`
+  ret : Bool           -- `ret = []`
+deriving Repr, DecidableEq
+
+def ResetCfg.all (r : ResetCfg) : Bool := r.depleted && r.pending && r.ppw && r.retries && r.ret
+
+/-- the pool's state when `run()` is entered again with a new input sequence -/
+def resetFor (r : ResetCfg) (s : St) (src : List Inp) : St :=
+  { ws := if r.ppw then s.ws.map (fun x => { x with ppw := [] }) else s.ws,
+    src := src,
+    depleted := if r.depleted then false else s.depleted,
+    retries := if r.retries then [] else s.retries,
+    pending := if r.pending then 0 else s.pending,
+    ret := if r.ret then [] else s.ret,
+    enq := [], err := none }
+
+/-- `run()` returns at once (with `None`) when no usable worker is left -/
+def usable (s : St) : Bool := s.ws.any (fun w => !w.closed)
+
+/-- the next `run()` on the same pool, up to its event loop; `pre`: what happened to the workers between the runs -/
+def nextRun (c : Cfg) (pick : List Nat → Option Nat) (r : ResetCfg) (s : St) (src : List Inp) (pre : List Ev := []) : St :=
+  firstEnqueue c pick (c.extra + 1) (pre.foldl (step c pick) (resetFor r s src))
+
 end PwVerif.Pool
